@@ -42,3 +42,22 @@ func init() {
 		NotDecided:  "short reads that io.ReadFull turns into errors (stdlib); that the returned token verifies (covered by C01's SIG-PAIR/SIG-STORE rules)",
 	})
 }
+
+func init() {
+	defProperty(&Property{
+		ID:    "C13",
+		Rules: []string{"RS-BASE", "RS-COMPLETE", "RS-COPY"},
+		Explanation: "Static decision of the structural clauses of C13 (who-may-write + completeness of Reset). The state Reset restores from is computed from the code: the authorizer fields Reset reads (today baseWorld, baseSymbols). RS-BASE: every store to those fields anywhere in package biscuit is on the freshly allocated authorizer (constructor) or inside a function literal of type AuthorizerOption (construction-time option); request-time methods only ever use them as the receiver of Clone(). RS-COMPLETE: every field that any method of the authorizer stores to is reassigned by Reset, except fields proved write-only (all loads flow into an append stored back to the same field). RS-COPY: Reset assigns world/symbols a Clone() of the base fields and clears every other request field to an empty value; the constructor initialises the same fields as Clone() of the same base fields after the option loop. Together: after any sequence of rounds with any content the authorizer state equals that of a new authorizer, by induction over rounds.",
+		Decides:     "who may write the base state; completeness of Reset over all request-mutable fields; copy (not alias) semantics of the restore; constructor/Reset agreement",
+		NotDecided:  "equality of outcomes with a fresh authorizer beyond state equality (needs engine determinism, C12/C05); deep independence of World.Clone/SymbolTable.Clone results is checked by OWN-CLONE under C08",
+		Technique:   "who-may-write / field-effect analysis over SSA (stores, loads, Clone provenance) on the authorizer implementation",
+	})
+	defProperty(&Property{
+		ID:    "C11",
+		Rules: []string{"LM-FIELDS", "LM-SENTINEL", "LM-CHAN", "LM-OPTS", "LM-CLONE", "LM-ERR", "RS-COPY"},
+		Explanation: "Static decision of the structural clauses of C11. LM-FIELDS: every field of runLimits is read in World.Run and feeds a bound (branch comparison or timeout constructor). LM-SENTINEL: every result production of Run is classified with its dominating branch decisions: ErrWorldRunLimitMaxFacts only under 'fact count exceeds maxFacts', ErrWorldRunLimitMaxIterations only after exhaustion of the maxIterations loop, ErrWorldRunLimitTimeout only on the deadline case of the select, nil only under 'fact count before == after an InsertAll' (fixpoint), errors of rule application only under err != nil; all five productions must exist. LM-ERR: every World.Run call in package biscuit has its error tested and returned. LM-OPTS + LM-CLONE + RS-COPY: every variadic option parameter (AuthorizerOption, WorldOption, builder/biscuit options) is applied in a full-range loop or forwarded as opts..., World copies carry runLimits, Reset/constructor clone the configured base world - so limits given at construction reach every world used. LM-CHAN: for every go statement, every channel send of the goroutine is proved unable to block forever: buffered channel with at most one send per path, or a select case next to a receive from a stop channel that its owner closes by defer on every exit (channel identity resolved through closures, parameters and call sites).",
+		Decides:     "limits read and enforced on every path of Run; sentinel/branch agreement; success only at fixpoint; error propagation at all Run call sites; option and limit plumbing through every constructor and copy; absence of forever-blocking sends in library goroutines",
+		NotDecided:  "wall-clock bounds (how long after the deadline Run returns; a worker still running, as opposed to blocked, after a timeout); the exact >= vs > boundary of maxFacts; adequacy of the default limits",
+		Technique:   "SSA edge-dominance (guards) on result productions + channel/goroutine send analysis + option-forwarding dataflow",
+	})
+}
